@@ -76,4 +76,14 @@ MUTANTS = [
         conn.execute('PRAGMA foreign_keys = ON')""")]},
     {'name': 'benign-inline-extension-lookup', 'expect': 'silent',
      'edits': [E(A, "    for ext_id in get_lexicon_extensions(rowid):", "    for ext_id in get_lexicon_extensions(rowid, depth=-1):")]},
+    {'name': 'lookup-drops-sense-relation-types', 'expect': 'C05-R10',
+     'edits': [E(A, """    reltypes.update(rel['relType']
+                    for e in _entries(lexicon)
+                    for s in _senses(e)
+                    for rel in s.get('relations', []))
+""", "")]},
+    {'name': 'lookup-only-new-relation-types', 'expect': 'C05-R10',
+     'edits': [E(A, """                   for rel in ss.get('relations', []))
+    reltypes.update(""", """                   for rel in ss.get('relations', []) if rel['relType'] != 'hypernym')
+    reltypes.update(""")]},
 ]
